@@ -24,7 +24,7 @@
 From Coq Require Import List NArith ZArith Bool Sorted.
 From Verif Require Import Lib.Bytes Lib.Assoc Model.App Model.DKGPure Model.DKGDriver Model.Outbox.
 From Verif Require Import Proofs.DKGChain Proofs.DKGExamples Proofs.OutboxEvolve Proofs.OutboxCoh Proofs.Outbox
-     Proofs.OutboxRun Proofs.OutboxMsgs Proofs.OutboxApp Proofs.OutboxExamples.
+     Proofs.OutboxRun Proofs.OutboxMsgs Proofs.OutboxMsgs2 Proofs.OutboxApp Proofs.OutboxExamples.
 From Verif Require Import Generated.DkgPhase Proofs.DkgPhase.
 Import ListNotations.
 Open Scope Z_scope.
@@ -226,16 +226,45 @@ Proof.
   repeat (first [left; reflexivity | right]).
 Qed.
 
-(* Outbox consistency, partial.  Proved for every step: whatever shuttermint receives is, at that
-   moment, the head row of the durable outbox - never a value from the volatile cache, never a
-   row of a transaction that did not commit.  Missing: the statements analogous to
-   C08_single_commitment for evaluations, apologies and the DKG-result vote over executions (the
-   primitive updates of Proofs/OutboxEvolve.v carry the facts: an evaluation row and an apology
-   value are computed from the polynomial the instance holds in that step, the result vote is
-   queued together with the result row).  The differential run checks these on the real code
-   (oracle keys C08:eval-inconsistent-with-commitment, C08:apology-inconsistent-with-commitment,
-   C08:vote-differs-from-result). *)
-Theorem C08_outbox_consistent_partial :
+(* Outbox consistency.  For every execution: every row of poly_evals, every evaluation in a
+   poly-eval message queued or received by shuttermint, every apology value and every DKG-result
+   vote is consistent with the keyper's durable state:
+     ev_ok  .. eon adr v      v = eval_of p i for the index i of adr in the eon's keyper list (eons and
+                              batch-config tables) and a polynomial p such that every commitment of the
+                              eon received or queued is commit_of p  (C08_single_commitment: there is
+                              at most one)
+     apo_ok .. eon accs vals  vals = map (eval_of p) idxs, accs the addresses of idxs, same p
+     res_ok d eon ok          the dkg_result row of the eon exists and says ok. *)
+Theorem C08_outbox_consistent :
+  forall (C E P : Type) (commit_of : P -> C) (eval_of : P -> nat -> E) (verify : nat -> E -> C -> bool)
+         (deg_ok : N -> C -> bool) (valid_eval : E -> bool) (me : addr) (L : Z)
+         (enum : list (N * active C E P) -> list (N * active C E P)) (delta : Z),
+  enum_entries_ok C E P enum ->
+  forall (ops : list (op C E P)) (w : world C E P),
+  run C E P commit_of eval_of verify deg_ok valid_eval me L enum delta (world_init C E P) ops = Some w ->
+  let lg := w_log w in let d := o_db (w_o w) in
+  (forall eon adr v, In (eon, (adr, v)) (db_evals C E P d) -> ev_ok C E P commit_of eval_of lg d eon adr v) /\
+  (forall eon rs vs r v, In (MEvals eon rs vs) (allmsgs C E P lg d) -> In (r, v) (combine rs vs) ->
+                         ev_ok C E P commit_of eval_of lg d eon r v) /\
+  (forall eon accs vals, In (MApology eon accs vals) (allmsgs C E P lg d) -> apo_ok C E P commit_of eval_of lg d eon accs vals) /\
+  (forall eon ok, In (MResult eon ok) (allmsgs C E P lg d) -> res_ok C E P d eon ok).
+Proof.
+  intros C E P commit_of eval_of verify deg_ok valid_eval me L enum delta Henum ops w Hr lg d.
+  destruct (outbox_consistent C E P commit_of eval_of verify deg_ok valid_eval me L enum delta Henum ops w Hr) as [A B Cc D].
+  repeat split; assumption.
+Qed.
+Print Assumptions C08_outbox_consistent.
+
+Example C08_outbox_consistent_nonvacuous :
+  (exists w, ObEx.run_ops (firstn 6 ObEx.ops) = Some w /\ In (1%N, (DkgEx.B, 10%N)) (db_evals _ _ _ (o_db (w_o w)))) /\
+  (exists w, ObEx.run_ops ObEx.ops = Some w /\ In (MResult 1%N true) (allmsgs DkgEx.C DkgEx.E DkgEx.P (w_log w) (o_db (w_o w)))).
+Proof.
+  split; vm_compute; eexists; (split; [reflexivity|]); repeat (first [left; reflexivity | right]).
+Qed.
+
+(* Whatever shuttermint receives is, at that moment, the head row of the durable outbox - never a
+   value from the volatile cache, never a row of a transaction that did not commit. *)
+Theorem C08_sent_is_outbox_head :
   forall (C E P : Type) (commit_of : P -> C) (eval_of : P -> nat -> E) (verify : nat -> E -> C -> bool)
          (deg_ok : N -> C -> bool) (valid_eval : E -> bool) (me : addr) (L : Z)
          (enum : list (N * active C E P) -> list (N * active C E P)) (delta : Z)
@@ -244,7 +273,13 @@ Theorem C08_outbox_consistent_partial :
   w_log w' = w_log w \/
   exists id ds m a, head C E P (o_db (w_o w)) = Some (id, (ds, m)) /\ w_log w' = w_log w ++ [(id, m, a)] /\ w_o w' = w_o w.
 Proof. exact step_sends_head. Qed.
-Print Assumptions C08_outbox_consistent_partial.
+Print Assumptions C08_sent_is_outbox_head.
+
+Example C08_sent_is_outbox_head_nonvacuous :
+  exists w w', ObEx.run_ops (firstn 2 ObEx.ops) = Some w /\
+    step DkgEx.C DkgEx.E DkgEx.P DkgEx.commit_of DkgEx.eval_of DkgEx.verify DkgEx.deg_ok DkgEx.valid_eval DkgEx.A DkgEx.L
+         (fun m => m) 1000 w (OSend (SAnswer ROk)) = Some w' /\ length (w_log w') = 1%nat.
+Proof. vm_compute. do 2 eexists. repeat split. Qed.
 
 (* The phase function the block transaction uses is the one generated from
    keyper/dkgphase/phase.go on every check (see C07_phase_function_agrees_with_source). *)
